@@ -60,6 +60,8 @@ type sysFixture struct {
 	witnessYAML string
 	// shard window of the log (default: 2020 - 2090)
 	windowStart, windowLimit time.Time
+	// cfgEdit, if set, rewrites the generated YAML before it is written.
+	cfgEdit func(string) string
 	// keepAlive adds a second, always active log to the configuration: a server
 	// whose logs are all read-only has no sequencer to supervise and exits.
 	keepAlive bool
@@ -226,8 +228,12 @@ func (f *sysFixture) writeConfig(name string, port int, periodMs int) string {
 			time.Now().Format(time.DateOnly), sysHost, f.monPort, filepath.Join(f.Base, "roots.pem"), filepath.Join(f.Base, "seed2.bin"), filepath.Join(f.Base, "cache2-"+name+".db"), filepath.Join(f.Base, "log2"))
 	}
 	b.WriteString(f.witnessYAML)
+	y := b.String()
+	if f.cfgEdit != nil {
+		y = f.cfgEdit(y)
+	}
 	p := filepath.Join(f.Base, "sunlight-"+name+".yaml")
-	os.WriteFile(p, []byte(b.String()), 0o644)
+	os.WriteFile(p, []byte(y), 0o644)
 	return p
 }
 
@@ -1114,5 +1120,109 @@ func TestSysSunset(t *testing.T) {
 		if leaves := f.auditAt(pub, "published"); leaves != nil {
 			f.checkAcks(leaves, "published")
 		}
+	}
+}
+
+// TestSysStartupRefusals: configurations the server binary must refuse to run
+// with, without creating or touching a log: an Inception date that is not
+// today on stores that do not have the log, and an ambiguous choice of the
+// global lock backend. The positive control (Inception today) must create it.
+func TestSysStartupRefusals(t *testing.T) {
+	r := NewRun(t, envStr("VERIF_SYS_PROPERTY", "C06"), "sysstartup")
+	r.Rule = "the built cmd/sunlight binary started on empty stores with Inception in {missing, empty string, a past date, yesterday, the current year-month only, tomorrow} must exit without creating a log (no lock row, no checkpoint file); with two lock backends configured (SQLite + DynamoDB table, SQLite + ETag bucket with / without endpoint, DynamoDB + ETag) it must exit as well; with Inception = today it creates the log and serves; distinct = configuration"
+	if _, err := os.Stat(verifBin("sunlight")); err != nil {
+		r.Inconcl("sunlight binary not built: %v", err)
+		return
+	}
+	shard, shards := shardInfo()
+	rng := NewRng(r.Seed, fmt.Sprint("sysstartup", shard, "/", shards))
+	day := func(d int) string { return time.Now().AddDate(0, 0, d).Format(time.DateOnly) }
+	type variant struct {
+		name      string
+		inception func() string // nil: key omitted
+		extra     string        // extra top-level YAML (second lock backend)
+		noSQLite  bool
+		mustRun   bool
+	}
+	variants := []variant{
+		{name: "inception-missing"},
+		{name: "inception-empty", inception: func() string { return "" }},
+		{name: "inception-2020", inception: func() string { return "2020-01-01" }},
+		{name: "inception-yesterday", inception: func() string { return day(-1) }},
+		{name: "inception-tomorrow", inception: func() string { return day(1) }},
+		{name: "inception-year-month", inception: func() string { return time.Now().Format("2006-01") }},
+		{name: "inception-year", inception: func() string { return time.Now().Format("2006") }},
+		{name: "two-lock-backends-sqlite+dynamodb", inception: func() string { return day(0) }, extra: "dynamodb:\n  region: us-east-1\n  table: verif-table\n  endpoint: http://127.0.0.1:1\n"},
+		{name: "two-lock-backends-sqlite+etag-endpoint", inception: func() string { return day(0) }, extra: "etags3:\n  region: auto\n  bucket: verif-bucket\n  endpoint: http://127.0.0.1:1\n"},
+		{name: "two-lock-backends-sqlite+etag-no-endpoint", inception: func() string { return day(0) }, extra: "etags3:\n  region: auto\n  bucket: verif-bucket\n"},
+		{name: "two-lock-backends-sqlite+etag-bucket-only", inception: func() string { return day(0) }, extra: "etags3:\n  bucket: verif-bucket\n"},
+		{name: "two-lock-backends-dynamodb+etag", inception: func() string { return day(0) }, noSQLite: true, extra: "dynamodb:\n  region: us-east-1\n  table: verif-table\n  endpoint: http://127.0.0.1:1\netags3:\n  region: auto\n  bucket: verif-bucket\n  endpoint: http://127.0.0.1:1\n"},
+		{name: "control-inception-today", inception: func() string { return day(0) }, mustRun: true},
+	}
+	for vi, v := range variants {
+		if !mine(vi) {
+			continue
+		}
+		func() {
+			f := newSysFixture(r, rng.Fork(v.name))
+			defer f.Close()
+			f.info["workload"] = "sysstartup"
+			f.info["variant"] = v.name
+			r.Eval(1)
+			r.DistinctKey(v.name)
+			before := time.Now().Format(time.DateOnly)
+			f.cfgEdit = func(y string) string {
+				// rewrite the inception line / add a second lock backend
+				var out []string
+				for _, ln := range strings.Split(y, "\n") {
+					if strings.HasPrefix(strings.TrimSpace(ln), "inception:") {
+						if v.inception == nil {
+							continue
+						}
+						ln = fmt.Sprintf("    inception: %q", v.inception())
+					}
+					if v.noSQLite && strings.HasPrefix(ln, "checkpoints:") {
+						continue
+					}
+					out = append(out, ln)
+				}
+				return v.extra + strings.Join(out, "\n")
+			}
+			p := f.start("S", "main", f.PeriodMs, "")
+			ready := p.waitReady(60 * time.Second)
+			if time.Now().Format(time.DateOnly) != before {
+				r.Count("skipped_date_changed_mid_case", 1)
+				p.kill()
+				return
+			}
+			_, statErr := os.Stat(filepath.Join(f.LogDir, "checkpoint"))
+			row := f.lockCheckpoint()
+			if v.mustRun {
+				if !ready {
+					if p.alive() {
+						p.kill()
+						r.Inconcl("control start did not become ready within the watchdog")
+						return
+					}
+					f.violate("inception-day-start-refused", "with Inception = today the server did not create and serve the log: %s", p.logTail())
+					return
+				}
+				if st, _ := f.submit(p, f.newChain(rng)); st != 200 {
+					f.violate("inception-day-start-refused", "the log created on its Inception day does not accept a submission (HTTP %d)", st)
+				}
+				r.Count("sys_created_on_inception_day", 1)
+				p.interrupt(5 * time.Second)
+				return
+			}
+			if ready || p.alive() {
+				p.kill()
+				f.violate("startup-not-refused:"+v.name, "the server started and serves with configuration %q, which it must refuse", v.name)
+			} else {
+				r.Count("sys_startup_refused", 1)
+			}
+			if statErr == nil || row != nil {
+				f.violate("log-created-by-refused-configuration:"+v.name, "a start-up that had to be refused (%s) created a log: checkpoint file present=%v, lock row present=%v", v.name, statErr == nil, row != nil)
+			}
+		}()
 	}
 }
